@@ -1,6 +1,6 @@
 """C09 - dictionaries keyed by value equality: Eq/Hash coherence discipline of ObjKey (static clauses)."""
 import re
-from .core import (builds_error, CheckError, find_match, arm_region, pat_str, strip_ref, origins, only_when, pat_paths,
+from .core import (family_bodies, family_calls, builds_error, CheckError, find_match, arm_region, pat_str, strip_ref, origins, only_when, pat_paths,
                    Registry, CallGraph, op_local)
 
 META = {
@@ -162,6 +162,12 @@ def run(F, rep, tier):
         if len(ps) == 2 and ps[0] == ps[1]:
             regn = arm_region(F, qb, qm, i)
             names = [c.target for c in qb.calls_in(regn)]
+            # a per-kind comparison split off into a private helper of this function still belongs to the arm
+            fam_paths = {b_.path for b_ in family_bodies(F, qk)}
+            for c in qb.calls_in(regn):
+                if c.target in fam_paths and c.target != qk:
+                    for b_ in family_bodies(F, c.target, depth=1):
+                        names += [c2.target for c2 in b_.calls]
             for cl in [s[2][2] for _bb, s in qb.aggregates(regn) if s[2][1] == 'closure']:
                 names += [c.target for c in F.body(cl).calls]
                 for cl2 in F.closures_of(cl):
@@ -307,7 +313,7 @@ def run(F, rep, tier):
     rep.extra['to_key_callers'] = users
     need = ['eval::index', 'eval::set_index', 'eval::modify_existing_index', 'eval::modify_every_existing_index', 'safe_index', 'obj_in', 'uniqued']
     for fn in need:
-        if any(u == fn or u.startswith(fn + '::{closure') for u in users):
+        if any(u == fn or u.startswith(fn + '::{closure') for u in users) or (F.has_fn(fn) and any(c.target == tk for c in family_calls(F, fn))):
             rep.ok('R9.3', 'entry point %s' % fn, 'obtains keys through to_key')
         elif not F.has_fn(fn):
             rep.error('R9.3', 'entry point %s missing' % fn)
